@@ -873,6 +873,7 @@ impl<'a> World<'a> {
                 c.consumed_before_poll = c.sent.len().saturating_sub(unread);
             }
         }
+        let pre_server_fd: Vec<Option<RawFd>> = self.clients.iter().map(|c| c.server_fd).collect();
         // connections are identified by (descriptor number, socket inode): a number released and
         // handed out again within one call names a different connection
         let before: BTreeSet<(RawFd, u64)> = self.server_table().iter().map(|e| (e.0, sock_ino(e.0))).collect();
@@ -991,8 +992,9 @@ impl<'a> World<'a> {
             accepted_desc = descs.join(", ");
             accepted_trace = traces.join(", ");
         }
-        for c in self.clients.iter_mut() {
-            if let Some(sfd) = c.server_fd.or_else(|| None) {
+        for (i, c) in self.clients.iter_mut().enumerate() {
+            // (the connection the event belonged to: the one this client had before the call)
+            if let Some(sfd) = pre_server_fd[i] {
                 if c.shut_rd && before_states.get(&sfd) == Some(&1) && batch.iter().any(|(b, ev)| *b == sfd && ev & 0x4 != 0) {
                     c.write_failed_known = true;
                 }
